@@ -376,3 +376,54 @@ func verifC14MemConcurrent() {
 	verifAssert("conc/no-data-race", verifRaces() == 0)
 	verifCover("c14/memconc")
 }
+
+// verifC14MemSequences: per-goroutine operation SEQUENCES on MemFs. One goroutine appends x1 then x2
+// to d0/b and then deletes d0/a; the main goroutine reads d0/b twice through its own descriptor and
+// lists the directory in between; a third goroutine links d0/b to d1/c. One total order respecting
+// real time: each read is "", x1 or x1x2 and the second is not shorter than the first; a listing that
+// no longer shows a implies both appends are visible afterwards; the link, once made, names the
+// same file (its content follows the appends).
+func verifC14MemSequences() {
+	fs := NewMemFs()
+	fs.Mkdir("d0")
+	fs.Mkdir("d1")
+	fs.AtomicCreate("d0", "a", []byte{1})
+	fb, _ := fs.Create("d0", "b")
+	x1 := verifNondetBytes("x1", 2)
+	x2 := verifNondetBytes("x2", 1)
+	r := fs.Open("d0", "b")
+	var linked bool
+	var wg sync.WaitGroup
+	wg.Add(2)
+	verifRaceDetect(true)
+	go func() {
+		fs.Append(fb, x1)
+		fs.Append(fb, x2)
+		fs.Delete("d0", "a")
+		wg.Done()
+	}()
+	go func() {
+		linked = fs.Link("d0", "b", "d1", "c")
+		wg.Done()
+	}()
+	g1 := fs.ReadAt(r, 0, 8)
+	l := fs.List("d0")
+	g2 := fs.ReadAt(r, 0, 8)
+	wg.Wait()
+	verifRaceDetect(false)
+	verifAssert("seq/no-data-race", verifRaces() == 0)
+	all := append(verifClone(x1), x2...)
+	isPrefix := func(g []byte) bool {
+		return verifOr(len(g) == 0, verifOr(verifBytesEq(g, x1), verifBytesEq(g, all)))
+	}
+	verifAssert("seq/reads-are-whole-append-prefixes", verifAnd(isPrefix(g1), isPrefix(g2)))
+	verifAssert("seq/second-read-not-shorter", len(g2) >= len(g1))
+	verifAssert("seq/list-always-shows-b", verifHas(l, "b"))
+	// Delete(a) is program-ordered after both appends: a listing without a is followed by full reads
+	verifAssert("seq/delete-observed-implies-appends-observed", verifOr(verifHas(l, "a"), verifBytesEq(g2, all)))
+	verifAssert("seq/link-succeeds", linked)
+	c := fs.Open("d1", "c")
+	verifAssert("seq/link-names-the-same-file", verifBytesEq(fs.ReadAt(c, 0, 8), all))
+	verifAssert("seq/final-listing", !verifHas(fs.List("d0"), "a"))
+	verifCover("c14/sequences")
+}
